@@ -74,6 +74,14 @@ theorem snapshot_fields :
     Gen.Metadata.snapshotGroupFields = ["Id", "Coordinator", "Epoch", "Members"] := by
   decide
 
+/-- `Members[].Streams` of a snapshot come from `consumerGroup.GetMembers`, which lists every member
+with its SUBSCRIPTION set (`consumer.streams`, the model's `Group.members`) — whether or not the
+member currently holds a partition of each stream (`snapGroup` writes exactly `g.members`). -/
+theorem snapshot_member_streams_are_subscriptions :
+    Gen.Metadata.getMembersRanges = ["c.members", "member.streams"] ∧
+    ∀ g : Metadata.Group, (Metadata.snapGroup g).members = g.members := by
+  exact ⟨by decide, fun _ => rfl⟩
+
 /-- Shape of the recovery code: a replayed delete only tombstones (no group notification), a
 replayed create un-tombstones (Close + removeStream), `finishedRecovery` purges and starts,
 `Restore` = `Reset` + create(recovered, epoch 0) + createGroup(recovered). -/
